@@ -1207,6 +1207,15 @@ class Totality:
             sg = self._site_guard(view, a, st, site)
             if sg is not None:
                 guards.append(sg)
+            if row is None and precond is None and implicit_ok and (site.kind == "assert:BoundsCheck" or site.kind == "foreign"):
+                bl = self._blame(view, site)
+                if bl:
+                    # one report per root cause: every index that depends on the wrapping subtraction shares its key
+                    site_kind, what = "index-depends-on-wrapping-sub", bl[0]
+                    res_ = Residual(key, site_kind, what, site.where, site.macro, [key], [], preds)
+                    res_.precond = None
+                    out.append(res_)
+                    continue
             res_ = Residual(key, site.kind, what, site.where, site.macro, [key], guards, preds)
             res_.precond = precond
             out.append(res_)
@@ -1372,6 +1381,25 @@ class Totality:
             self.lin_memo[k] = linear.Prover(view, forms)
         return self.lin_memo[k]
 
+    def _blame(self, view, site):
+        """Root cause of an undischarged index site: an unsigned subtraction that may wrap and that the index or the
+        range bounds depend on.  Sites with the same root cause are reported once, under the subtraction."""
+        P = self.lin(view)
+        t = site.term
+        forms = []
+        try:
+            if site.kind == "assert:BoundsCheck":
+                forms = [P.form(t["index"])]
+            elif site.kind == "foreign" and len(t.get("args", [])) >= 2:
+                rp = P._range_parts(t["args"][1])
+                if rp is not None:
+                    forms = [P.form(o) for o in rp[1:] if o is not None]
+                else:
+                    forms = [P.form(t["args"][1])]
+        except RecursionError:
+            return []
+        return P.blame(forms)
+
     def _discharge_linear(self, view, site):
         """D-lin: relational discharge over linear forms of lengths, loop variables and const parameters."""
         P = self.lin(view)
@@ -1379,9 +1407,31 @@ class Totality:
         bi = site.block
         try:
             if site.kind == "assert:BoundsCheck":
-                fi, fl = P.form(t["index"]), P.form(t["len"])
+                fi, fl = P.form(t["index"], at=bi), P.form(t["len"], at=bi)
                 if fi is not None and fl is not None and P.lt(fi, fl, bi):
                     return "D-lin: index < len by linear facts"
+                return None
+            if site.kind.startswith("assert:Overflow") and t.get("op") == "Add" and "a" in t and "b" in t:
+                # unsigned `a + b` in an overflow-checked build: a + b <= MAX(type) from linear facts plus the type bound
+                # of every atom (a loop counter below a length: `j < N` gives `j + 1 <= N <= usize::MAX`)
+                tn = None
+                for o in (t["a"], t["b"]):
+                    if o.get("o") == "const":
+                        tn = tn or o.get("ty")
+                    elif not o["p"]:
+                        tn = tn or view.local_tyname(o["l"])
+                if tn in ("usize", "u64"):
+                    fa, fb = P.form(t["a"], at=bi), P.form(t["b"], at=bi)
+                    if fa is not None and fb is not None:
+                        mx = (1 << 64) - 1
+                        goal = linear.Form(mx).add(fa, -1).add(fb, -1)
+                        P.type_bound = mx
+                        try:
+                            # every atom is a usize / u64 quantity, a slice length or a const parameter: <= MAX
+                            if P.prove(goal, bi):
+                                return "D-lin: a + b <= MAX by linear facts"
+                        finally:
+                            P.type_bound = None
                 return None
             if site.kind.startswith("assert:Overflow") and t.get("op") == "Sub" and "a" in t and "b" in t:
                 # unsigned `a - b` in an overflow-checked build: does not wrap when a - b >= 0 follows from linear facts
@@ -1392,7 +1442,7 @@ class Totality:
                     elif not o["p"]:
                         tn = tn or view.local_tyname(o["l"])
                 if tn in ("usize", "u64", "u32", "u16", "u8", "u128"):
-                    fa, fb = P.form(t["a"]), P.form(t["b"])
+                    fa, fb = P.form(t["a"], at=bi), P.form(t["b"], at=bi)
                     if fa is not None and fb is not None and P.le(fb, fa, bi):
                         return "D-lin: a - b >= 0 by linear facts"
                 return None
